@@ -7,8 +7,7 @@ normal form is the same codec:
   alike for every value among the declared enumerators;
 * `readerMatches_sound`: what the driver's `progeq` answer means.
 
-The whole-program statement (`expand_decode_partial`) is proved for member lists without conditionals over enum variables being
-re-bound; see the statement.
+The whole-program statement is `expand_decode` in Thm/C01c.lean (no side condition).
 -/
 import WowVerif.Model.SemNorm
 namespace WowVerif.Sem
